@@ -87,15 +87,20 @@ def dnf(expr, polarity):
     return [[(expr, polarity)]]
 
 
-def branch_justifies(cfg_node, is_justification):
+def branch_justifies(cfg_node, is_justification, cfg=None):
     """A branch node justifies skipping a check when every disjunct of its
-    condition contains at least one justification atom."""
+    (canonical) condition contains at least one justification atom."""
     if cfg_node.kind not in ("true", "false"):
         return False
-    for conj in dnf(cfg_node.ast, cfg_node.kind == "true"):
-        if not any(is_justification(e, pol) for e, pol in conj):
-            return False
-    return True
+    if cfg is None:
+        alts_list = [dnf(cfg_node.ast, cfg_node.kind == "true")]
+    else:
+        alts_list = [cfg.cdnf(cfg_node.id), cfg.cdnf(cfg_node.id, inline=True)]
+    for alts in alts_list:
+        if all(any(is_justification(e, pol) for e, pol in conj)
+               for conj in alts):
+            return True
+    return False
 
 
 def unguarded_path(cfg, src, sinks, check_nodes, is_justification, avoid=()):
@@ -103,7 +108,8 @@ def unguarded_path(cfg, src, sinks, check_nodes, is_justification, avoid=()):
     justifying branch; None when every such path is covered."""
     block = set(check_nodes) | set(avoid)
     for n in cfg.nodes:
-        if n.kind in ("true", "false") and branch_justifies(n, is_justification):
+        if n.kind in ("true", "false") and branch_justifies(
+                n, is_justification, cfg):
             block.add(n.id)
     for s in sinks:
         p = cfg.path(src, s, block)
@@ -180,3 +186,18 @@ def compare_parts(expr):
 def str_consts(node):
     return [n.value for n in ast.walk(node)
             if isinstance(n, ast.Constant) and isinstance(n.value, str)]
+
+
+def facts(cfg, nid, inline=False):
+    """Canonical (text, polarity) guard facts of a node; with inline=True also
+    the forms with single-definition locals inlined."""
+    out = cfg.guard_texts(nid)
+    if inline:
+        out = out | cfg.guard_texts(nid, inline=True)
+    return out
+
+
+def Q(text, polarity=True):
+    """Canonical (text, polarity) for an expectation written naturally."""
+    from . import canon
+    return canon.query(text, polarity)
